@@ -327,9 +327,10 @@ type c05World struct {
 	// per sequence
 	jar      []c05Cookie
 	toks     map[string]string // CLI tokens handed out, by "<uid>:<expiry tick>"
-	chals    [][]byte  // challenges handed out by begin ops (raw bytes)
+	chals    [][]byte          // challenges handed out by begin ops (raw bytes)
 	asserts  map[string][]byte
-	off      int64 // virtual step = real step + off
+	assertCt map[string]uint32 // signature counter inside each cached assertion
+	off      int64             // virtual step = real step + off
 	flags    [2]int
 	bootLife [2]int
 	vnow     int
@@ -455,6 +456,7 @@ func (w *c05World) reset(f0, b0, f1, b1 int, oktaMode bool) {
 	}
 	w.jar, w.toks, w.chals = nil, map[string]string{}, nil
 	w.asserts = map[string][]byte{}
+	w.assertCt = map[string]uint32{}
 	w.off, w.vnow = 0, 0
 	w.flags = [2]int{f0, f1}
 	w.bootLife = [2]int{b0, b1}
@@ -831,6 +833,7 @@ func (w *c05World) exec(f []string) (string, []string, []string) {
 				if k < len(w.chals) { // replays of an assertion over a real challenge are byte-identical
 					w.asserts[key] = body
 				}
+				w.assertCt[key] = tk.counter
 			}
 			bit := c05FlagU2F
 			if f[3] == "w" {
@@ -845,8 +848,17 @@ func (w *c05World) exec(f []string) (string, []string, []string) {
 			path, h = webAuthnAuthFinishPath, st.webauthnAuthFinish
 		}
 		c, ck, _ := serve(h, w.body(path, f[1], body))
-		if c == "200" && f[0] == "wafinish" {
-			time.Sleep(3 * time.Millisecond) // webauthnAuthFinish saves the profile in a goroutine
+		if c == "200" && f[0] == "wafinish" && f[3] == "u" && ok {
+			// webauthnAuthFinish saves the profile (new signature counter) in a goroutine: wait for it,
+			// or a later clock shift of the stored profile could be overwritten by the stale copy
+			want := w.assertCt[f[0]+"/"+f[2]+f[3]+"/"+f[4]]
+			for i := 0; i < 400; i++ {
+				p, _, _, err := st.LoadUserProfile(c05Users[owner])
+				if err == nil && p.U2fAuthData[1] != nil && p.U2fAuthData[1].Counter == want {
+					break
+				}
+				time.Sleep(time.Millisecond)
+			}
 		}
 		return c, ck, ev
 	case f[0] == "showtoken" && len(f) == 3:
